@@ -157,6 +157,9 @@ func FindArrayIndex(str string) ([][]int, error) {
 			}
 		}
 	}
+	if len(stack) != 0 {
+		return nil, fmt.Errorf("unbalanced brackets")
+	}
 	return output, nil
 }
 
